@@ -320,4 +320,5 @@ def obligations(tier):
         obs.append(CH('W_spelling_fallback_dirstates', MOD, 'w_full_dirs', timeout=6000, partitions=list(range(6)), twin=False, engine='W',
                       regime='selector', encodes=PUT_FUNCS, stubs=STUBS,
                       bounds='6 kinds x %d spellings x 4 fallback x 6 .Trash x 3 .Trash-uid x 9 pre-existing states' % NSP))
-    return obs
+    from harness import kpair
+    return kpair.obligations(tier) + obs
